@@ -228,6 +228,19 @@ static int run_dispatch(const char *in_path, const char *out_path)
         {
             const auto bar = line.find('|');
             std::string cands = line.substr(0, bar), args_s = line.substr(bar + 1);
+            // optional third section: size hints (the C++ side of op[SIZE: Size[n]](...)), e.g. "| 2,3"
+            std::vector<std::size_t> hints;
+            if (const auto bar2 = args_s.find('|'); bar2 != std::string::npos)
+            {
+                for (const auto &h : split_top(args_s.substr(bar2 + 1), ','))
+                {
+                    std::string t = h;
+                    t.erase(std::remove(t.begin(), t.end(), ' '), t.end());
+                    if (!t.empty()) hints.push_back((std::size_t)std::atoll(t.c_str()));
+                }
+                args_s = args_s.substr(0, bar2);
+                while (!args_s.empty() && args_s.back() == ' ') args_s.pop_back();
+            }
             while (!cands.empty() && cands.back() == ' ') cands.pop_back();
             while (!args_s.empty() && args_s.front() == ' ') args_s.erase(0, 1);
             OperatorRegistry::instance().reset();
@@ -264,7 +277,8 @@ static int run_dispatch(const char *in_path, const char *out_path)
                 arg.port.schema = pa.concrete();
                 args.push_back(std::move(arg));
             }
-            ResolvedOperatorCall r = OperatorRegistry::instance().resolve("vop", std::span<const WiringArg>{args}, true);
+            ResolvedOperatorCall r = OperatorRegistry::instance().resolve("vop", std::span<const WiringArg>{args}, true, nullptr,
+                                                                          std::span<const std::size_t>{hints});
             const TSValueTypeMetaData *o = ts_pattern_resolve(r.impl->output, r.map);
             buf += "ok " + r.impl->label + " rank=" + std::to_string(r.impl->rank) + " out=" + clean(o ? std::string(o->name()) : "<null>") + " map=";
             std::vector<std::string> binds;
